@@ -68,10 +68,17 @@ def sweep(ctx, label, codes, make, op, after, max_points=300):
         st0 = make()
         total, exc = inj.run(lambda: op(st0), 10 ** 12)
         if exc is not None:
-            raise RuntimeError("operation %s fails without injection: %r" % (label, exc))
+            # a valid operation on fresh objects fails although nothing was injected: a violation, not a harness error
+            ctx.ev()
+            ctx.fail("inject/%s/operation-fails-without-fault/%s" % (label, type(exc).__name__),
+                     {"kind": "inject", "label": label, "at": None}, repr(exc)[:200])
+            return
         if total == 0:
             raise RuntimeError("no line events for %s" % label)
-        bad = after(st0)
+        try:
+            bad = after(st0)
+        except Exception as e:
+            bad = ("exception-" + type(e).__name__, repr(e)[:200])
         if bad:
             ctx.ev()
             ctx.fail("inject/%s/wrong-without-fault/%s" % (label, bad[0]), {"kind": "inject", "label": label, "at": None}, bad[1])
